@@ -324,6 +324,18 @@ class BinOp(Expression):
         lhs_str = self._lhs.write(scope)
         rhs_str = self._rhs.write(scope)
 
+        if self._op in (
+            BinOp.Operator.BIT_AND,
+            BinOp.Operator.BIT_OR,
+            BinOp.Operator.BIT_XOR,
+        ) and all(
+            isinstance(TypeQualifier.decay(operand.result), (int, Integer))
+            and not isinstance(TypeQualifier.decay(operand.result), bool)
+            for operand in (self._lhs, self._rhs)
+        ):
+            # VHDL defines no logical operators for integers
+            return f"to_integer(to_signed({lhs_str}, 32) {op} to_signed({rhs_str}, 32))"
+
         for int_expr, other in ((self._lhs, self._rhs), (self._rhs, self._lhs)):
             neg = _negative_int_for_unsigned(int_expr, other)
 
